@@ -37,20 +37,22 @@ ASSUMPTIONS = [
     "what clear() does to a directive's options is not stated by the property and is not judged",
     "blank-line conventions between elements are not judged, except that option lines directly follow the directive heading",
 ]
-PROBES = ["list_ge_10_items", "depth_ge_2", "depth_ge_3", "multi_line_paragraph", "paragraph_with_leading_spaces", "option_after_content",
+PROBES = ["depth_ge_11", "list_ge_10_items", "depth_ge_2", "depth_ge_3", "multi_line_paragraph", "paragraph_with_leading_spaces", "option_after_content",
           "title_changed_after_serialise", "clear_root", "clear_directive", "serialise_ge_3", "section_used",
           "mutation_after_serialise"]
 
 HEADER_SETS = [["#", "*", "=", "-"], ["=", "-", "~", "^"], ["^", "+"], ["*", "="], ["~", "#", "+"], ["-", "="]]
 OPS = ["text", "text", "field", "bul", "enum", "dir", "dir", "dir", "opt", "section", "title", "clear", "ser", "ser"]
+DEEP_OPS = ["deepen", "deepen", "deepen", "deepen", "text", "field", "enum", "opt", "ser"]
 
 
 def swarm(rng, tier):
-    return {"max_ops": rng.choice([12, 20, 30]), "headers": rng.randrange(len(HEADER_SETS))}
+    return {"max_ops": rng.choice([12, 20, 30]), "headers": rng.randrange(len(HEADER_SETS)), "deep": rng.random() < 0.2}
 
 
 def strategy(cfg):
-    op = st.tuples(st.sampled_from(OPS), st.integers(0, 11), st.integers(0, 7), st.integers(0, 3))
+    op = st.tuples(st.sampled_from(DEEP_OPS if cfg.get("deep") else OPS), st.integers(0, 11), st.integers(0, 7),
+                   st.integers(0, 3))
     return st.fixed_dictionaries({"headers": st.sampled_from(HEADER_SETS),
                                   "title": st.sampled_from(["T", "Top title", "A longer document title 123"]),
                                   "ops": st.lists(op, min_size=1, max_size=cfg["max_ops"])})
@@ -148,6 +150,14 @@ def run_history(spec, serialise=True, upto=None):
     ops = spec["ops"] if upto is None else spec["ops"][:upto]
     for oi, (op, a, b, c) in enumerate(ops):
         hw, hm = handles[a % len(handles)]
+        if op == "deepen":
+            # a chain: always nest inside the most recently created directive ("nested to any depth")
+            op = "dir"
+            hw, hm = handles[-1]
+            if hm.depth >= 16:
+                continue
+        elif op in ("text", "field", "enum", "opt") and len(handles) > 6 and a % 2:
+            hw, hm = handles[-1]
         if op == "ser":
             if not serialise:
                 continue
@@ -175,7 +185,9 @@ def run_history(spec, serialise=True, upto=None):
             (hw.bulleted_list if op == "bul" else hw.enumerated_list)(*items)
             hm.children.append(Node(op, hm.depth, items=items, markers=marks))
         elif op == "dir":
-            if hm.depth >= 4:
+            if hm.depth >= 4 and hm is not handles[-1][1]:
+                continue
+            if hm.depth >= 16:
                 continue
             m = mk()
             args = [f"{m}arg{j}" for j in range(c % 3)]
@@ -312,6 +324,8 @@ def evaluate(spec, ctx):
         ctx.probes["depth_ge_2"] += 1
     if stats["max_depth"] >= 3:
         ctx.probes["depth_ge_3"] += 1
+    if stats["max_depth"] >= 11:
+        ctx.probes["depth_ge_11"] += 1
     for k, p in (("opt_after_content", "option_after_content"), ("title_after_ser", "title_changed_after_serialise"),
                  ("clear_root", "clear_root"), ("clear_dir", "clear_directive"), ("section", "section_used"),
                  ("mut_after_ser", "mutation_after_serialise")):
